@@ -196,6 +196,15 @@ def run(ctx):
         log("[C15] binding self-test: %d corrupted copies of a recorded case rejected, the original accepted" % nself)
     elif not V.violations and not V.known:
         raise vlib.Infra("no accepted case available for the binding self-test")
+    # thorough tier: the implementation-shaped model of the pcapng reader (NgReaderImpl.tla): model checked against the
+    # property specs, runs replayed on the real NgReader with predicted-vs-observed comparison, real traces judged
+    impl = {}
+    if ctx.tier != "quick":
+        from . import ngreaderimpl as ni
+        icov = ni.run_impl(ctx, lambda reason, prop: V if prop == PID else None)
+        impl["impl_model"] = {k: icov[k] for k in ("model", "plans", "defect_finding_runs", "states", "traces_validated_against_impl",
+                                                   "trace_events_validated", "calls_compared_model_vs_code", "rejected_real_scenarios",
+                                                   "impl_drift", "code_decisions_total") if k in icov}
     rc = V.finish()
     samples = [{k: e[k] for k in e if k != "hex"} for e in ev[:3]]
     cov = {"evaluations": runs, "cases": len(starts), "tlc_cases": st["tlc_cases"], "cooperating_length_field_cases": st.get("combo_cases", 0),
@@ -205,6 +214,7 @@ def run(ctx):
            "selftest_corruptions_rejected": nself,
            "rule": "evaluations = streams read to the end (case x reader configuration x stream shape); distinct_nontrivial = distinct (reader, field locator, value class) corruptions - random ones counted individually - whose result differs from that of the uncorrupted base file, i.e. that reached the reader's parsing of the field",
            "samples": samples}
+    cov.update(impl)
     vlib.write_evidence(PID, ctx.tier, ctx.seed, "exploration", cov, time.time() - t0, len(V.violations),
                         ["allocation bound: c0 = 1 MiB, c1 = 8 (NgReader.tla); bytes present = plain + gzip-wrapped stream length; declared snap length as parsed by the reader",
                          "per-call allocation is the delta of the cumulative heap-allocation counter (runtime/metrics /gc/heap/allocs:bytes = MemStats.TotalAlloc, read without stopping the world); the plain and gzip whole-stream runs are additionally bounded by the MemStats.TotalAlloc delta of the run",
